@@ -12,7 +12,7 @@ git apply seeded_out/change$i.diff || { echo "patch does not apply"; exit 3; }
 git checkout -q -- .
 # our check against /repo with the patch applied
 git -C /repo apply $out/change$i.diff || { echo "patch does not apply to /repo"; exit 3; }
-cd /verif && ./check $prop --tier quick > /tmp/sv_check.txt 2>&1; c1=$?
+cd /verif && ./check $prop --tier quick --evidence-dir /tmp/esrally-verif-dev-evidence > /tmp/sv_check.txt 2>&1; c1=$?
 git -C /repo checkout -q -- .
 echo "prop=$prop change=$i demo_clean=$d0 demo_patched=$d1 suite_patched=$s1 ($(head -1 /tmp/sv_suite.txt)) check_exit=$c1"
 grep -A1 'oracle=' /tmp/sv_check.txt | grep -v '^--' | cut -c1-400 | head -8
